@@ -307,6 +307,12 @@ class Equalizer(object):
         """
         Creates and start new player process, ready to take playback tasks
         """
+        # Every worker gets fresh queues, a late answer of a previous worker that was killed on timeout must never be
+        # read as the answer of a task given to this one
+        self._compare_tasks.close()
+        self._compare_results.close()
+        self._compare_tasks = mp.Queue()
+        self._compare_results = mp.Queue()
         self._compare_process = mp.Process(
             target=self._playback_process_target, name='Playback runner')
         self._compare_process.start()
